@@ -240,7 +240,8 @@ STRUCTURES = (  # (key, topology, classes, top tag, resonance-3 tag)
     ("Dtos1P1_s1toV2P2_V2toP3P4", "1_2_34", ("s", "V"), None, None),
 )
 EVENT_TYPES = (("K-", "pi+", "pi+", "pi-"), ("pi+", "pi-", "pi+", "pi-"), ("K+", "K-", "pi+", "pi-"), ("pi+", "K-", "pi-", "pi+"),
-               ("pi+", "pi+", "pi-", "pi-"), ("K-", "K+", "K-", "K+"), ("pi0", "pi+", "pi0", "pi-"))
+               ("pi+", "pi+", "pi-", "pi-"), ("K-", "K+", "K-", "K+"), ("pi0", "pi+", "pi0", "pi-"), ("pi+", "pi+", "pi+", "pi-"),
+               ("pi0", "pi0", "pi0", "pi0"))
 LS_KINDS = (None, None, "GSpline.EFF", "kMatrix.pole.1", "kMatrix.prod.0", "kMatrix.pole.0", "FOCUS.Kpi", "FOCUS.I32", "FOCUS.KEta")
 
 
